@@ -121,20 +121,9 @@ impl BusListener {
     //@fn broker/src/bus_listener.rs BusListener::specific_services nobody iter
     //@end
 
-    // add_filter / remove_filter use `|=` on bool and iterator adapters (outside Verus's subset): contracts ASSUMED.
-    //@fn broker/src/bus_listener.rs BusListener::add_filter nobody
-        ensures
-            final(self).filters@ == old(self).filters@.insert(filter),
-            final(self).scope == old(self).scope,
-            final(self).conn_id == old(self).conn_id,
-    //@end
-
-    //@fn broker/src/bus_listener.rs BusListener::remove_filter nobody
-        ensures
-            final(self).filters@ == old(self).filters@.remove(filter),
-            final(self).scope == old(self).scope,
-            final(self).conn_id == old(self).conn_id,
-    //@end
+    // add_filter / remove_filter: verified in the leaf unit (`|=`/`&=` desugared by N10, `.iter().any/.all` by N12)
+    //@fn-from broker_bus_listener broker/src/bus_listener.rs BusListener::add_filter
+    //@fn-from broker_bus_listener broker/src/bus_listener.rs BusListener::remove_filter
 }
 
 // ---- ConnectionState ----------------------------------------------------------------------------------------
